@@ -214,6 +214,12 @@ class QDomain(Domain):
                 return LIST(elem(args[0])) if args else LIST(SCALAR)
             if n == 'range':
                 return LIST(SCALAR)
+            if n == 'reduce' and e.args:
+                # functools.reduce(f, xs): the kind of f's results
+                fn_ = norm(e.args[0])
+                if fn_ == 'np.add.outer' or (fn_.startswith('np.') and fn_.split('.')[-1] in NP_ND):
+                    return ND
+                return UNK(f'reduce({fn_})')
             if n == 'map' and e.args:
                 fn_ = norm(e.args[0])
                 if fn_.startswith('np.') and fn_.split('.')[-1] in NP_ND:
@@ -234,6 +240,11 @@ class QDomain(Domain):
             return UNK(f'call {n}')
         if isinstance(f, ast.Attribute):
             dotted = norm(f)
+            if dotted == 'functools.reduce' and e.args:
+                fn_ = norm(e.args[0])
+                if fn_ == 'np.add.outer' or (fn_.startswith('np.') and fn_.split('.')[-1] in NP_ND):
+                    return ND
+                return UNK(f'reduce({fn_})')
             if dotted.startswith('np.'):
                 name = dotted.split('.')[-1]
                 if dotted.startswith('np.linalg.'):
@@ -246,6 +257,11 @@ class QDomain(Domain):
                     return ND
                 if dotted == 'np.add.outer':
                     return ND
+                if dotted in ('functools.reduce',) and e.args:
+                    fn_ = norm(e.args[0])
+                    if fn_ == 'np.add.outer' or (fn_.startswith('np.') and fn_.split('.')[-1] in NP_ND):
+                        return ND
+                    return UNK(f'reduce({fn_})')
                 if name == 'where':
                     return ND if len(e.args) == 3 else TUPLE([ND])
                 if name in NP_ND:
